@@ -25,6 +25,8 @@ struct Task {
     /// initial sequence (Dublin: the per-round flow port starts here), rounds
     init: u16,
     rounds: usize,
+    /// the rewriting devices clear the UDP checksum instead of fixing it up
+    nat_zero: bool,
 }
 
 fn topo(t: &Task) -> Topo {
@@ -33,6 +35,7 @@ fn topo(t: &Task) -> Topo {
             let mut h = Hop::reply(t.cell.hop_addr(ttl as u8, 0));
             h.quote = if t.cell.v6 || ttl % 2 == 0 { Quote::Full } else { Quote::HeaderPlus(8) };
             h.nat = t.nat_mask & (1 << (ttl - 1)) != 0;
+            h.nat_zero = h.nat && t.nat_zero;
             if t.silent_mask & (1 << (ttl - 1)) != 0 {
                 h.kind = HopKind::Silent;
             }
@@ -133,7 +136,7 @@ fn judge(t: &Task, o: &RunOutcome) -> (Vec<(String, String)>, [u64; 3]) {
 }
 
 fn task_json(t: &Task) -> Value {
-    json!({"cell": t.cell.name(), "cell_index": c01::cell_index(&t.cell), "target_distance": t.l, "nat_mask": t.nat_mask, "silent_mask": t.silent_mask, "target_answers": t.target_answers, "packet_size": t.size, "pattern": t.pattern, "initial_sequence": t.init, "rounds": t.rounds})
+    json!({"cell": t.cell.name(), "cell_index": c01::cell_index(&t.cell), "target_distance": t.l, "nat_mask": t.nat_mask, "silent_mask": t.silent_mask, "target_answers": t.target_answers, "packet_size": t.size, "pattern": t.pattern, "initial_sequence": t.init, "rounds": t.rounds, "nat_clears_checksum": t.nat_zero})
 }
 
 pub fn run(args: &Args) -> i32 {
@@ -160,9 +163,23 @@ pub fn run(args: &Args) -> i32 {
                             if tier == Tier::Quick && l > 3 && (nat_mask as usize + silent_mask as usize + k) % sizes.len() != 0 {
                                 continue;
                             }
-                            tasks.push(Task { cell: *cell, l, nat_mask, silent_mask, target_answers, size, pattern, bound: if tier == Tier::Thorough { 3 } else { 2 }, init: 33434, rounds: 2 });
+                            tasks.push(Task { cell: *cell, l, nat_mask, silent_mask, target_answers, size, pattern, bound: if tier == Tier::Thorough { 3 } else { 2 }, init: 33434, rounds: 2, nat_zero: false });
                         }
                     }
+                }
+            }
+        }
+    }
+    // a rewriting device that clears the UDP checksum (legal over IPv4) instead of fixing it up:
+    // every hop behind it quotes checksum 0
+    for cell in &dublin4 {
+        for l in [3usize, 5] {
+            for nat_mask in [0b01u32, 0b10] {
+                for silent_mask in [0u32, 0b100] {
+                    if silent_mask >= (1 << (l - 1)) {
+                        continue;
+                    }
+                    tasks.push(Task { cell: *cell, l, nat_mask, silent_mask, target_answers: true, size: 84, pattern: 0, bound: 1, init: 33434, rounds: 2, nat_zero: true });
                 }
             }
         }
@@ -174,7 +191,7 @@ pub fn run(args: &Args) -> i32 {
     for cell in &dublin4 {
         for &(size, pattern) in &sweep_sizes {
             for init in 0..=64511u16 {
-                tasks.push(Task { cell: *cell, l: 3, nat_mask: 0, silent_mask: 0, target_answers: true, size, pattern, bound: 0, init, rounds: 1 });
+                tasks.push(Task { cell: *cell, l: 3, nat_mask: 0, silent_mask: 0, target_answers: true, size, pattern, bound: 0, init, rounds: 1, nat_zero: false });
             }
         }
     }
@@ -183,14 +200,14 @@ pub fn run(args: &Args) -> i32 {
     for cell in &dublin4 {
         for size in 28..=1024u16 {
             for pattern in [0x00u8, 0x01, 0xaa, 0xff] {
-                tasks.push(Task { cell: *cell, l: 3, nat_mask: 0, silent_mask: 0, target_answers: true, size, pattern, bound: 0, init: 33434, rounds: 1 });
+                tasks.push(Task { cell: *cell, l: 3, nat_mask: 0, silent_mask: 0, target_answers: true, size, pattern, bound: 0, init: 33434, rounds: 1, nat_zero: false });
             }
         }
     }
     // every other cell: not applicable, once (with a rewriting device on the path)
     for cell in all_cells() {
         if !applicable(&cell) {
-            tasks.push(Task { cell, l: 3, nat_mask: 0b01, silent_mask: 0, target_answers: true, size: if cell.v6 { 96 } else { 84 }, pattern: 0, bound: 0, init: 33434, rounds: 2 });
+            tasks.push(Task { cell, l: 3, nat_mask: 0b01, silent_mask: 0, target_answers: true, size: if cell.v6 { 96 } else { 84 }, pattern: 0, bound: 0, init: 33434, rounds: 2, nat_zero: false });
         }
     }
     let agg = Mutex::new((mc::ExploreStats::default(), 0u64, [0u64; 3], 0u64, vec![]));
@@ -285,7 +302,7 @@ pub fn run(args: &Args) -> i32 {
     rep.observe("hop_rounds_expected_detected", json!(counts[0]));
     rep.observe("hop_rounds_expected_not_detected", json!(counts[1]));
     rep.observe("hop_rounds_expected_not_applicable", json!(counts[2]));
-    rep.set("rule", json!("IPv4/UDP/Dublin x ports {fixed src, fixed dest, fixed both} x (size,pattern) {28,29,84,1024}x{00,AA}: EVERY path with target distance 1..5, every placement of <= 2 address/port-rewriting devices, every subset of silent hops, target answering or silent; 2 rounds; all executions with <= 2 (quick) / 3 (thorough) scheduling deviations (delay, loss, reorder). Oracle straight from the statement on the simulator's ground truth (UDP checksum each hop quoted vs previous responding hop / probe as sent), compared with Hop::last_nat_status() in the snapshot taken at each publish. Value sweep: every initial sequence 0..=64511 (every value of the varying port, so every UDP checksum residue incl. 0x0000/0xFFFF) on an undisturbed 3-hop path without rewriting: no hop may show NAT; likewise every packet size 28..=1024 x payload patterns {00,01,aa,ff}. All other cells once: NotApplicable"));
+    rep.set("rule", json!("IPv4/UDP/Dublin x ports {fixed src, fixed dest, fixed both} x (size,pattern) {28,29,84,1024}x{00,AA}: EVERY path with target distance 1..5, every placement of <= 2 address/port-rewriting devices, every subset of silent hops, target answering or silent (+ devices that clear the UDP checksum instead of fixing it up, on paths of 3 and 5); 2 rounds; all executions with <= 2 (quick) / 3 (thorough) scheduling deviations (delay, loss, reorder). Oracle straight from the statement on the simulator's ground truth (UDP checksum each hop quoted vs previous responding hop / probe as sent), compared with Hop::last_nat_status() in the snapshot taken at each publish. Value sweep: every initial sequence 0..=64511 (every value of the varying port, so every UDP checksum residue incl. 0x0000/0xFFFF) on an undisturbed 3-hop path without rewriting: no hop may show NAT; likewise every packet size 28..=1024 x payload patterns {00,01,aa,ff}. All other cells once: NotApplicable"));
     for s in samples {
         rep.sample(s);
     }
@@ -309,6 +326,7 @@ pub fn replay(path: &str) -> i32 {
         bound: 0,
         init: tj["initial_sequence"].as_u64().unwrap_or(33434) as u16,
         rounds: tj["rounds"].as_u64().unwrap_or(2) as usize,
+        nat_zero: tj["nat_clears_checksum"].as_bool().unwrap_or(false),
     };
     let choices: Vec<u16> = r["choices"].as_array().unwrap().iter().map(|c| c.as_u64().unwrap() as u16).collect();
     let o = run_once(&t, Chooser::new(&choices, 100_000));
